@@ -124,7 +124,7 @@ def const_value(t):
     return [const_value(m) for m in t[1]]
 
 
-def compile_sig(sig, version, optimize=None):
+def compile_sig(sig, version, optimize=None, assemble=False):
     import pyteal as pt
     from .recipe.build import reset_pyteal_state
     try:
@@ -132,7 +132,7 @@ def compile_sig(sig, version, optimize=None):
         kw = {}
         if optimize is not None:
             kw["optimize"] = pt.OptimizeOptions(**optimize)
-        ap, cl, contract = r.compile_program(version=version, **kw)
+        ap, cl, contract = r.compile_program(version=version, assemble_constants=assemble, **kw)
         return (ap, contract.dictify()), "ok", ""
     except Exception as e:  # noqa
         name = type(e).__name__
@@ -179,7 +179,7 @@ def method_job(job: Dict[str, Any]) -> Dict[str, Any]:
     lens = list(job.get("lens", [2]))
     out = {"id": job["id"], "family": job.get("family"), "version": job["version"], "status": "ok", "violations": [], "complaints": [],
            "obligations": 0, "discharged": 0, "inconclusive": 0, "ref_paths": 0, "teal_paths": 0, "ref_cut": 0, "nonfail": 0, "replayed": 0, "unconfirmed": 0}
-    res, st, detail = compile_sig(sig, job["version"], job.get("optimize"))
+    res, st, detail = compile_sig(sig, job["version"], job.get("optimize"), job.get("assemble", False))
     out["status"], out["detail"] = st, detail
     if st != "ok":
         return out
@@ -204,6 +204,12 @@ def method_job(job: Dict[str, Any]) -> Dict[str, Any]:
         return out
     sel = selector(sig_string(sig))
     consts = [bytes(i.args[0][1]) if i.op == "method" else None for i in prog.instrs]
+    if job.get("assemble"):
+        for i in prog.instrs:
+            if i.op == "bytecblock":
+                consts += [bytes(b) for b in i.args[0] if isinstance(b, (bytes, bytearray))]
+            if i.op == "pushbytes" and isinstance(i.args[0], (bytes, bytearray)):
+                consts.append(bytes(i.args[0]))
     if sel not in [c for c in consts if c is not None]:
         out["violations"].append(dict(base, kind="selector", detail="the program never compares against the selector of %s" % sig_string(sig)))
     vals, args = call_model(sig, lens)
@@ -268,7 +274,7 @@ def method_job(job: Dict[str, Any]) -> Dict[str, Any]:
         conc["%s.ApplicationArgs[0]" % pre_] = sel
         for k, a in enumerate(cargs):
             conc["%s.ApplicationArgs[%d]" % (pre_, k + 1)] = a
-        res2, st2, _ = compile_sig(sig, job["version"], job.get("optimize"))
+        res2, st2, _ = compile_sig(sig, job["version"], job.get("optimize"), job.get("assemble", False))
         if st2 != "ok":
             out.setdefault("harness", []).append("recompilation failed")
             continue
